@@ -7,6 +7,7 @@
 package cli
 
 import (
+	"encoding/base64"
 	"encoding/json"
 	"fmt"
 	"os"
@@ -14,6 +15,7 @@ import (
 	"sort"
 	"strings"
 	"time"
+	"unicode/utf8"
 
 	"github.com/JunNishimura/Goit/verifharness/core/findings"
 	"github.com/JunNishimura/Goit/verifharness/core/gitfmt"
@@ -31,6 +33,51 @@ type Step struct {
 	TZ      int                 `json:"tz,omitempty"`      // op tz: UTC offset in minutes for the following goit runs
 	Entries []gitfmt.IndexEntry `json:"entries,omitempty"` // op index: write a crafted staging-area file
 	Note    string              `json:"note,omitempty"`    // generator intent, e.g. "invalid" = invalid by construction
+}
+
+// Steps may carry file names that are not valid UTF-8; encoding/json would replace such bytes.
+// They are stored as "\x00b64:<base64>" (a NUL cannot occur in a path or argument).
+func encStr(s string) string {
+	if utf8.ValidString(s) {
+		return s
+	}
+	return "\x00b64:" + base64.StdEncoding.EncodeToString([]byte(s))
+}
+
+func decStr(s string) string {
+	if strings.HasPrefix(s, "\x00b64:") {
+		if b, err := base64.StdEncoding.DecodeString(strings.TrimPrefix(s, "\x00b64:")); err == nil {
+			return string(b)
+		}
+	}
+	return s
+}
+
+type stepJSON Step
+
+func (s Step) MarshalJSON() ([]byte, error) {
+	t := stepJSON(s)
+	t.Path = encStr(s.Path)
+	if s.Args != nil {
+		t.Args = make([]string, len(s.Args))
+		for i, a := range s.Args {
+			t.Args[i] = encStr(a)
+		}
+	}
+	return json.Marshal(t)
+}
+
+func (s *Step) UnmarshalJSON(b []byte) error {
+	var t stepJSON
+	if err := json.Unmarshal(b, &t); err != nil {
+		return err
+	}
+	t.Path = decStr(t.Path)
+	for i, a := range t.Args {
+		t.Args[i] = decStr(a)
+	}
+	*s = Step(t)
+	return nil
 }
 
 func (s Step) String() string {
@@ -285,6 +332,10 @@ func (v *Violation) Error() string {
 func (e *Exec) Do(st Step) error {
 	e.Sc.Steps = append(e.Sc.Steps, st)
 	e.H.StepNo++
+	// commit ids depend on the wall clock: steps name commits symbolically ("@commit#2" = the third commit
+	// this scenario created, with optional "!trunc" / "!plus" / "!upper" damage) and are resolved here,
+	// so that a saved scenario replays with the ids of the replaying run
+	st = e.resolve(st)
 	c := &Ctx{Box: e.Box, Pre: e.Cur, Step: st, H: e.H, Tmp: map[string]interface{}{}}
 	for _, o := range e.P.Oracles {
 		if o.Before != nil {
@@ -344,6 +395,40 @@ func (e *Exec) Do(st Step) error {
 		e.Cur = Observe(e.Box)
 	}
 	return nil
+}
+
+func (e *Exec) resolve(st Step) Step {
+	if st.Op != "goit" {
+		return st
+	}
+	out := st
+	out.Args = append([]string{}, st.Args...)
+	for i, a := range out.Args {
+		if !strings.HasPrefix(a, "@commit#") {
+			continue
+		}
+		spec := strings.TrimPrefix(a, "@commit#")
+		mod := ""
+		if j := strings.Index(spec, "!"); j >= 0 {
+			spec, mod = spec[:j], spec[j+1:]
+		}
+		var n int
+		fmt.Sscanf(spec, "%d", &n)
+		id := strings.Repeat("a", 40)
+		if len(e.H.Order) > 0 {
+			id = e.H.Order[n%len(e.H.Order)]
+		}
+		switch mod {
+		case "trunc":
+			id = id[:39]
+		case "plus":
+			id += "0"
+		case "upper":
+			id = strings.ToUpper(id)
+		}
+		out.Args[i] = id
+	}
+	return out
 }
 
 // Goit runs a (read-only) goit command on behalf of an oracle.
